@@ -1303,55 +1303,114 @@ open HdVerif HdVerif.Gen
 
 /-! ### call histories -/
 
-/-- states a parsed group can be in while it is being read with coordinate type `ct`: nothing decoded yet,
-or the decoded data cached under `ct` -/
-def ReadState {α : Type} (gt : String) (enc : Enc α) (ct : Int) (G : GData α) (g : Group α) : Prop :=
-  g.gtype = gt ∧ g.enc = enc ∧ (g.cache = none ∨ g.cache = some (ct, G))
+/-- the guard on the requested coordinate type, spelled out -/
+theorem coordTypeGuard_spec (ct : Int) (kn : Option Int) (hz : Bool) :
+    coordTypeGuard ct kn hz =
+      if (match kn with
+          | some t => decide (ct ≠ t)
+          | none => false) || (hz && decide (ct ≠ 3)) then .error .value else .ok 0 := by
+  unfold coordTypeGuard
+  cases kn <;> grind (splits := 40)
 
-theorem getGraphicDataS_state {α : Type} (gt : String) (enc : Enc α) (ct : Int) (G : GData α)
-    (hdec : decode gt enc ct = .ok G) (g : Group α) (h : ReadState gt enc ct G g) :
-    ∃ g', getGraphicDataS g ct = .ok (G, g') ∧ ReadState gt enc ct G g' := by
-  obtain ⟨h1, h2, h3⟩ := h
+/-- states a parsed group can be in while it is being read: nothing decoded yet, or the decoded data cached
+under its coordinate type `ct`; `kn` is the coordinate type handed down by its instance (if any) -/
+def ReadState {α : Type} (gt : String) (enc : Enc α) (kn : Option Int) (ct : Int) (G : GData α) (g : Group α) : Prop :=
+  g.gtype = gt ∧ g.enc = enc ∧ g.known = kn ∧ (g.cache = none ∨ g.cache = some (ct, G))
+
+theorem getGraphicDataS_state {α : Type} (gt : String) (enc : Enc α) (kn : Option Int) (ct : Int) (G : GData α)
+    (hguard : coordTypeGuard ct kn enc.commonZ.isSome = .ok 0)
+    (hdec : decode gt enc ct = .ok G) (g : Group α) (h : ReadState gt enc kn ct G g) :
+    ∃ g', getGraphicDataS g ct = .ok (G, g') ∧ ReadState gt enc kn ct G g' := by
+  obtain ⟨h1, h2, hk, h3⟩ := h
   rcases h3 with hc | hc
-  · refine ⟨{ g with cache := some (ct, G) }, ?_, h1, h2, Or.inr rfl⟩
-    simp [getGraphicDataS, hc, h1, h2, hdec]
-  · exact ⟨g, by simp [getGraphicDataS, hc], h1, h2, Or.inr hc⟩
+  · refine ⟨{ g with cache := some (ct, G) }, ?_, h1, h2, hk, Or.inr rfl⟩
+    simp [getGraphicDataS, hc, h1, h2, hk, hdec, hguard]
+  · exact ⟨g, by simp [getGraphicDataS, hc], h1, h2, hk, Or.inr hc⟩
 
-/-- one access with the group's coordinate type: the answer does not depend on the state, and the state
-stays a read state -/
-theorem accessS_state {α : Type} (gt : String) (enc : Enc α) (ct : Int) (G : GData α)
-    (hdec : decode gt enc ct = .ok G) (g : Group α) (h : ReadState gt enc ct G g) (a : Access) (hct : a.ct = ct) :
-    (accessS g a).1 = (accessS { gtype := gt, enc := enc, cache := none } a).1 ∧
-    ReadState gt enc ct G (accessS g a).2 := by
-  obtain ⟨g', hg', hs'⟩ := getGraphicDataS_state gt enc ct G hdec g h
-  obtain ⟨g0, hg0, _⟩ := getGraphicDataS_state gt enc ct G hdec { gtype := gt, enc := enc, cache := none } ⟨rfl, rfl, Or.inl rfl⟩
-  cases a with
-  | whole c =>
-    simp only [Access.ct] at hct; subst hct
-    simp [accessS, hg', hg0, hs']
-  | nth k c =>
-    simp only [Access.ct] at hct; subst hct
-    simp only [accessS]
-    cases hci : coordIndex k with
-    | error e => exact ⟨rfl, h⟩
-    | ok i =>
-      simp only [hg', hg0]
-      by_cases hi : i < 0
-      · simp [hi, hs']
-      · simp only [hi, if_false]
-        cases G[i.toNat]? <;> simp [hs']
+/-- a coordinate type the guard refuses is refused in every read state, and the state stays what it was -/
+theorem getGraphicDataS_refused {α : Type} (gt : String) (enc : Enc α) (kn : Option Int) (ct c : Int) (G : GData α)
+    (hc : c ≠ ct) (hwrong : coordTypeGuard c kn enc.commonZ.isSome = .error .value)
+    (g : Group α) (h : ReadState gt enc kn ct G g) : getGraphicDataS g c = .error .value := by
+  obtain ⟨h1, h2, hk, h3⟩ := h
+  rcases h3 with hn | hs
+  · simp [getGraphicDataS, hn, h2, hk, hwrong]
+  · have : ¬ (ct = c) := fun x => hc x.symm
+    simp [getGraphicDataS, hs, this]
 
-/-- **the answers of any sequence of accesses that all use coordinate type `ct` are those of the same accesses
-made one by one on a freshly parsed object** -/
-theorem runHistory_independent {α : Type} (gt : String) (enc : Enc α) (ct : Int) (G : GData α)
-    (hdec : decode gt enc ct = .ok G) (accs : List Access) : (∀ a ∈ accs, a.ct = ct) → ∀ (g : Group α), ReadState gt enc ct G g →
-    runHistory g accs = accs.map (fun a => (accessS { gtype := gt, enc := enc, cache := none } a).1) := by
+/-- one access: with the group's own coordinate type the answer does not depend on the state; with a type the
+guard refuses the access is refused whatever the state; either way the state stays a read state -/
+theorem accessS_state {α : Type} (gt : String) (enc : Enc α) (kn : Option Int) (ct : Int) (G : GData α)
+    (hguard : coordTypeGuard ct kn enc.commonZ.isSome = .ok 0)
+    (hdec : decode gt enc ct = .ok G) (g : Group α) (h : ReadState gt enc kn ct G g) (a : Access)
+    (hct : a.ct = ct ∨ coordTypeGuard a.ct kn enc.commonZ.isSome = .error .value) :
+    (accessS g a).1 = (accessS { gtype := gt, enc := enc, cache := none, known := kn } a).1 ∧
+    ReadState gt enc kn ct G (accessS g a).2 := by
+  have hfresh : ReadState gt enc kn ct G { gtype := gt, enc := enc, cache := none, known := kn } := ⟨rfl, rfl, rfl, Or.inl rfl⟩
+  by_cases hown : a.ct = ct
+  · obtain ⟨g', hg', hs'⟩ := getGraphicDataS_state gt enc kn ct G hguard hdec g h
+    obtain ⟨g0, hg0, _⟩ := getGraphicDataS_state gt enc kn ct G hguard hdec _ hfresh
+    cases a with
+    | whole c =>
+      simp only [Access.ct] at hown; subst hown
+      simp [accessS, hg', hg0, hs']
+    | nth k c =>
+      simp only [Access.ct] at hown; subst hown
+      simp only [accessS]
+      cases hci : coordIndex k with
+      | error e => exact ⟨rfl, h⟩
+      | ok i =>
+        simp only [hg', hg0]
+        by_cases hi : i < 0
+        · simp [hi, hs']
+        · simp only [hi, if_false]
+          cases G[i.toNat]? <;> simp [hs']
+  · have hw : coordTypeGuard a.ct kn enc.commonZ.isSome = .error .value := by
+      rcases hct with hh | hh
+      · exact absurd hh hown
+      · exact hh
+    have r1 := getGraphicDataS_refused gt enc kn ct a.ct G hown hw g h
+    have r0 := getGraphicDataS_refused gt enc kn ct a.ct G hown hw _ hfresh
+    cases a with
+    | whole c =>
+      simp only [Access.ct] at r1 r0
+      simp [accessS, r1, r0, h]
+    | nth k c =>
+      simp only [Access.ct] at r1 r0
+      simp only [accessS]
+      cases hci : coordIndex k with
+      | error e => exact ⟨rfl, h⟩
+      | ok i => simp [r1, r0, h]
+
+/-- **the answers of any sequence of accesses — each with the group's own coordinate type or with a type the guard
+refuses — are those of the same accesses made one by one on a freshly parsed object** -/
+theorem runHistory_independent {α : Type} (gt : String) (enc : Enc α) (kn : Option Int) (ct : Int) (G : GData α)
+    (hguard : coordTypeGuard ct kn enc.commonZ.isSome = .ok 0)
+    (hdec : decode gt enc ct = .ok G) (accs : List Access) :
+    (∀ a ∈ accs, a.ct = ct ∨ coordTypeGuard a.ct kn enc.commonZ.isSome = .error .value) →
+    ∀ (g : Group α), ReadState gt enc kn ct G g →
+    runHistory g accs = accs.map (fun a => (accessS { gtype := gt, enc := enc, cache := none, known := kn } a).1) := by
   induction accs with
   | nil => intro _ g _; rfl
   | cons a rest ih =>
     intro hall g h
-    obtain ⟨h1, h2⟩ := accessS_state gt enc ct G hdec g h a (hall a (by simp))
+    obtain ⟨h1, h2⟩ := accessS_state gt enc kn ct G hguard hdec g h a (hall a (by simp))
     simp only [runHistory, List.map_cons, h1, ih (fun x hx => hall x (by simp [hx])) _ h2]
+
+/-- a group that knows its coordinate type refuses every other one -/
+theorem guard_known_refuses (t c : Int) (hz : Bool) (h : c ≠ t) : coordTypeGuard c (some t) hz = .error .value := by
+  rw [coordTypeGuard_spec]
+  simp [h]
+
+/-- a stored CommonZCoordinateValue refuses everything but '3D' -/
+theorem guard_commonZ_refuses (kn : Option Int) (c : Int) (h : c ≠ 3) : coordTypeGuard c kn true = .error .value := by
+  rw [coordTypeGuard_spec]
+  simp [h]
+
+/-- the own type passes when nothing known contradicts it -/
+theorem guard_own_passes (ct : Int) (kn : Option Int) (hz : Bool) (hk : kn = none ∨ kn = some ct) (h3 : hz = true → ct = 3) :
+    coordTypeGuard ct kn hz = .ok 0 := by
+  rw [coordTypeGuard_spec]
+  rcases hk with rfl | rfl <;> cases hz <;> simp_all
 
 end HdVerif.Ann
 
@@ -1373,5 +1432,28 @@ theorem filter_number_above (gs : List GroupInfo) : ∀ (off target : Int), numb
     have hne : ¬ (g.number = target) := by push_cast at ht; omega
     simp only [List.filter_cons, hne, decide_false, Bool.false_eq_true, if_false]
     exact ih (off + 1) target (numberedFrom_tail off g rest h) (by push_cast at ht ⊢; omega)
+
+end HdVerif.Ann
+
+namespace HdVerif.Ann
+open HdVerif HdVerif.Gen
+
+/-- the constructor writes CommonZCoordinateValue for 3-D data only -/
+theorem expectedEnc_commonZ_c3 {α : Type} [DecidableEq α] (gt : String) (dbl : Bool) (cast : α → α) (gd : GData α) (c : Nat)
+    (h : (expectedEnc gt dbl cast gd c).commonZ.isSome = true) : c = 3 := by
+  simp only [expectedEnc] at h
+  by_cases hs : sharedZ cast gd c = true
+  · simp only [sharedZ, decide_eq_true_eq] at hs
+    exact hs.1
+  · simp [hs] at h
+
+/-- on what the constructor writes, the group's own coordinate type passes the guard whether or not the instance
+handed it down -/
+theorem guard_expected {α : Type} [DecidableEq α] (gt : String) (dbl : Bool) (cast : α → α) (gd : GData α) (c : Nat)
+    (kn : Option Int) (hk : kn = none ∨ kn = some (if c = 3 then 3 else 2)) :
+    coordTypeGuard (if c = 3 then 3 else 2) kn (expectedEnc gt dbl cast gd c).commonZ.isSome = .ok 0 := by
+  apply guard_own_passes _ _ _ hk
+  intro h
+  simp [expectedEnc_commonZ_c3 gt dbl cast gd c h]
 
 end HdVerif.Ann
